@@ -50,9 +50,9 @@ class TrackingModel:
         f['last_update_interval'] = FLin(self.iv)
         self.value = Struct([f[n] for n in names])
 
-    def domain(self):
+    def domain(self, neg_iv=False):
         return [self.c >= -RANGE, self.c <= RANGE, self.d >= 0, self.d <= RANGE, self.r >= 0, self.r <= RANGE,
-                self.iv >= 0, self.iv <= 2 ** 40, self.leap >= 0, self.leap < 65536,
+                self.iv >= (-2 ** 40 if neg_iv else 0), self.iv <= 2 ** 40, self.leap >= 0, self.leap < 65536,
                 self.ref_ns >= 0, self.ref_ns < 2 ** 62, self.now_ns >= 0, self.now_ns < 2 ** 62, self.ref_id >= 0, self.ref_id < 2 ** 32]
 
 
@@ -158,7 +158,7 @@ def c10_oracle(nat, leap):
     elif leap == 3:
         exp = 2
     else:
-        exp = 2 if Fraction(age, NS) > 8 * nat['iv'] else 1
+        exp = 2 if Fraction(age, NS) > max(0, 8 * nat['iv']) else 1
     return exp
 
 
@@ -218,11 +218,19 @@ def check_c07(tier, seed):
     phc_term(ck, prog, pr, seed)
     rp.close(); rp2.close()
     ck.absorb(pr)
+    # PHC term, source of the value: the number written in the sysfs file is what the poller hands on
+    try:
+        from . import phc_file
+        phc_file.check(ck, lambda: Prover(seed), prog, tier, seed)
+        ck.cov['functions_encoded'] = list(ck.cov.get('functions_encoded', [])) + ['get_phc_error_bound_from_path over a byte-level file model (symbolic decimal digits)']
+    except EngineError as e:
+        ck.inconclusive.append('PHC error-bound file reader: %s' % e)
     ck.cov['counterexamples_replayed'], ck.cov['counterexamples_confirmed'] = stats
     tv = validate(ck, prog, tm, outs, ex, seed, 40 if tier == 'quick' else 300)
     ck.cov['traces_validated_against_impl'] = tv
     ck.cov['bounds'] = {'offset_s': '[-2^20, 2^20] (any finite double)', 'root_delay_s, root_dispersion_s': '[0, 2^20]', 'float_tolerance': '2^-49 relative (4 roundings) ; ceil and the cast are exact',
-                        'phc_error_bound': '[0, 2^62)'}
+                        'phc_error_bound': '[0, 2^62)',
+                        'phc_file': 'decimal strings of %s digits (every digit symbolic), with and without a trailing newline; other contents (signs, blanks, non-digits) outside' % ('1, 2, 8, 9, 10, 18' if tier == 'quick' else '1..18')}
     return ck.finish()
 
 
@@ -304,13 +312,16 @@ def check_c10(tier, seed):
     ex, fn, outs = run_extract(prog, tm)
     base(ck, ex, mir_wall, outs)
     pr = Prover(seed)
-    pr.add(tm.domain()); pr.add(ex.side)
+    pr.add(tm.domain(neg_iv=True)); pr.add(ex.side)
     age = tm.now_ns - tm.ref_ns
     age_s = z3.ToReal(age) / NS
+    # a negative update interval (chronyd's clock stepped between two updates) makes every reference time "older than eight
+    # intervals": the threshold is max(0, 8*interval)
+    thr = z3.If(tm.iv < 0, z3.RealVal(0), 8 * tm.iv)
     exp = z3.If(z3.Or(tm.now_ns < tm.ref_ns, tm.leap > 3), z3.IntVal(0),
-                z3.If(tm.leap == 3, z3.IntVal(2), z3.If(age_s > 8 * tm.iv, z3.IntVal(2), z3.IntVal(1))))
+                z3.If(tm.leap == 3, z3.IntVal(2), z3.If(age_s > thr, z3.IntVal(2), z3.IntVal(1))))
     # ages and thresholds are compared at the 1 ns resolution of the representation: within 1 ns of the threshold either class is accepted
-    near = z3.And(tm.leap <= 2, tm.now_ns >= tm.ref_ns, z3.ToReal(age) - 8 * tm.iv * NS <= 1, z3.ToReal(age) - 8 * tm.iv * NS >= -1)
+    near = z3.And(tm.leap <= 2, tm.now_ns >= tm.ref_ns, z3.ToReal(age) - thr * NS <= 1, z3.ToReal(age) - thr * NS >= -1)
     rp = common.Replay('debug'); rp2 = common.Replay('release')
     stats = [0, 0]
 
@@ -324,10 +335,10 @@ def check_c10(tier, seed):
             if 'status' not in nat:
                 continue
             want = c10_oracle(nat, leap)
-            near_thr = leap <= 2 and nat['age_ns'] >= 0 and abs(nat['age_ns'] - 8 * nat['iv'] * NS) <= 1 and nat['status'] in (1, 2)
+            near_thr = leap <= 2 and nat['age_ns'] >= 0 and abs(nat['age_ns'] - max(0, 8 * nat['iv']) * NS) <= 1 and nat['status'] in (1, 2)
             if nat['status'] != want and not near_thr:
                 stats[1] += 1
-                thr = 8 * nat['iv']
+                thr = max(0, 8 * nat['iv'])
                 sub = nat['status'] == 2 and want == 1 and Fraction(nat['age_ns'], NS) > int(thr) and Fraction(nat['age_ns'], NS) <= thr
                 keyname = 'threshold-truncated-to-whole-seconds' if sub else 'classification'
                 ck.violation(keyname, 'leap=%d, update interval=%s s, reference-time age=%.9f s: real extract_bound_from_tracking (%s) classifies as %s, the property requires %s (threshold 8*interval = %s s)' %
@@ -338,8 +349,8 @@ def check_c10(tier, seed):
         pc = o.state.pcond()
         stt = o.value.f[1].disc()
         k1, k2 = z3.Int('hint_k1'), z3.Int('hint_k2')
-        hints = [[tm.iv * 16 == z3.ToReal(k1), tm.iv <= 4096, (tm.now_ns - tm.ref_ns) == k2 * 1000000, k2 >= 0, k2 < 10 ** 9],
-                 [tm.iv * 1024 == z3.ToReal(k1), tm.iv <= 4096, (tm.now_ns - tm.ref_ns) < 10 ** 15, tm.now_ns >= tm.ref_ns]]
+        hints = [[tm.iv * 16 == z3.ToReal(k1), tm.iv <= 4096, tm.iv >= -4096, (tm.now_ns - tm.ref_ns) == k2 * 1000000, k2 >= 0, k2 < 10 ** 9],
+                 [tm.iv * 1024 == z3.ToReal(k1), tm.iv <= 4096, tm.iv >= -4096, (tm.now_ns - tm.ref_ns) < 10 ** 15, tm.now_ns >= tm.ref_ns]]
         pr.prove_cegar('path%d/status_is_the_documented_class' % i, pc, z3.Or(stt == exp, z3.And(near, z3.Or(stt == 1, stt == 2))), confirm, lambda m: [], hints=hints)
         pr.prove('path%d/status_code_valid' % i, pc, z3.And(stt >= 0, stt <= 2))
     # the leap-status decoding alone, for all 65536 values
@@ -358,7 +369,14 @@ def check_c10(tier, seed):
     ck.cov['counterexamples_replayed'], ck.cov['counterexamples_confirmed'] = stats
     tv = validate(ck, prog, tm, outs, ex, seed, 40 if tier == 'quick' else 300)
     ck.cov['traces_validated_against_impl'] = tv
-    ck.cov['bounds'] = {'leap_status': 'all 65536 values', 'update_interval_s': 'any finite double in [0, 2^40] (zero and sub-second included; a negative interval is not a meaningful report)',
+    # the class reaches the published record: process_clock_update after every short history (each FSM state)
+    try:
+        from .daemon_updater import report_status_part
+        Hs = report_status_part(ck, prog, seed, tier)
+        ck.cov['functions_encoded'] = list(ck.cov.get('functions_encoded', [])) + ['ShmUpdater::process_clock_update / process_missing_clock_update / write_clock_error_bound and the status FSM (histories of <= %d steps ending in a report)' % Hs]
+    except EngineError as e:
+        ck.inconclusive.append('status after a report (updater): %s' % e)
+    ck.cov['bounds'] = {'leap_status': 'all 65536 values', 'update_interval_s': 'any finite double in [-2^40, 2^40] (zero, sub-second and negative included; for a negative interval the threshold is 0: every reference time older than 1 ns is stale)',
                         'reference_time_age': 'any, both signs (ref_time and now as integer ns in [0, 2^62))'}
     return ck.finish()
 
